@@ -457,6 +457,8 @@ template <class V> static FX_NOINLINE void g_complex(fx::Ctx& fx) {
         FX_CB("v+v", va + vb, a[i] + b[i]) FX_CB("v-v", va - vb, a[i] - b[i]) FX_CB("v*v", va * vb, Z(a[i].real() * b[i].real() - a[i].imag() * b[i].imag(), a[i].real() * b[i].imag() + a[i].imag() * b[i].real()))
         FX_CB("v+s", va + s, a[i] + s) FX_CB("v-s", va - s, a[i] - s) FX_CB("v*s", va * s, Z(a[i].real() * s.real() - a[i].imag() * s.imag(), a[i].real() * s.imag() + a[i].imag() * s.real()))
         FX_CB("fmadd", fmadd(va, vb, vc), Z(a[i].real() * b[i].real() - a[i].imag() * b[i].imag() + c[i].real(), a[i].real() * b[i].imag() + a[i].imag() * b[i].real() + c[i].imag()))
+        FX_CB("fmsub", fmsub(va, vb, vc), Z(a[i].real() * b[i].real() - a[i].imag() * b[i].imag() - c[i].real(), a[i].real() * b[i].imag() + a[i].imag() * b[i].real() - c[i].imag()))
+        FX_CB("fnmadd", fnmadd(va, vb, vc), Z(c[i].real() - (a[i].real() * b[i].real() - a[i].imag() * b[i].imag()), c[i].imag() - (a[i].real() * b[i].imag() + a[i].imag() * b[i].real())))
         { for (size_t i = 0; i < N; ++i) e[i] = a[i] + b[i]; V r = va; r += vb; getl(r, o); fx.eq(o, e, N, (const Z*)nullptr, "v+=v"); }
         { for (size_t i = 0; i < N; ++i) e[i] = a[i] - b[i]; V r = va; r -= vb; getl(r, o); fx.eq(o, e, N, (const Z*)nullptr, "v-=v"); }
         { for (size_t i = 0; i < N; ++i) e[i] = Z(a[i].real() * b[i].real() - a[i].imag() * b[i].imag(), a[i].real() * b[i].imag() + a[i].imag() * b[i].real()); V r = va; r *= vb; getl(r, o); fx.eq(o, e, N, (const Z*)nullptr, "v*=v"); }
